@@ -3,11 +3,12 @@
 # store it under /verif/seeded/<Cnn>-<k>/ (patch.diff, demo/, meta.json, README.md).
 set -u
 export GOFLAGS=-mod=mod GOPROXY=off GOSUMDB=off GOTOOLCHAIN=local; unset GOWORK
-P=$1; K=$2
-WT=/tmp/seed/$P
-SRC=/tmp/seedout/$P/$K
-mkdir -p /tmp/seedout/$P
-if [ -d $WT/out ]; then rm -rf /tmp/seedout/$P; mv $WT/out /tmp/seedout/$P; fi
+P=$1; K=$2; T=${3:-$K}     # property, index in the agent's out/, index under /verif/seeded
+ROOT=${SEEDROOT:-/tmp/seed}
+WT=$ROOT/$P
+SRC=$ROOT.out/$P/$K
+mkdir -p $ROOT.out/$P
+if [ -d $WT/out ]; then rm -rf $ROOT.out/$P; mv $WT/out $ROOT.out/$P; fi
 cd $WT || exit 2
 git checkout -q -- . ; git clean -fdq
 DEMO=$(find $SRC/demo -type f | head -1)
@@ -15,7 +16,7 @@ BASE=$(basename $DEMO .txt)
 PKG=$(grep -m1 '^package ' $DEMO | awk '{print $2}' | sed 's/_test$//')
 [ "$PKG" = "state" ] || PKG=client
 TESTS=$(grep -ho '^func Test[A-Za-z0-9_]*' $DEMO | sed 's/func //' | paste -sd'|')
-log=/tmp/seedout/$P/$K.confirm.log; : > $log
+log=$ROOT.out/$P/$K.confirm.log; : > $log
 res() { echo "$1" | tee -a $log; }
 git apply --whitespace=nowarn $SRC/patch.diff || { res "APPLY-FAIL"; exit 1; }
 go build ./... >>$log 2>&1 || { res "BUILD-FAIL"; git checkout -q -- .; exit 1; }
@@ -38,9 +39,9 @@ for i in 1 2; do
   go test -vet=off -count=1 -timeout 120s -run "^($TESTS)\$" ./$PKG >>$log 2>&1 && dpass=$((dpass+1))
 done
 rm -f $PKG/$BASE; git clean -fdq
-res "RESULT $P-$K suite_ok=$suite_ok demo_fail_with_patch=$dfail/2 demo_pass_without=$dpass/2 tests=$TESTS"
+res "RESULT $P-$T suite_ok=$suite_ok demo_fail_with_patch=$dfail/2 demo_pass_without=$dpass/2 tests=$TESTS"
 if [ $suite_ok = 1 ] && [ $dfail = 2 ] && [ $dpass = 2 ]; then
-  D=/verif/seeded/$P-$K; mkdir -p $D/demo
+  D=/verif/seeded/$P-$T; mkdir -p $D/demo
   cp $SRC/patch.diff $D/patch.diff; cp $DEMO $D/demo/$BASE.txt; cp $SRC/README.md $D/README.md
   echo CONFIRMED >> $log
 fi
